@@ -3,5 +3,5 @@
 # refactoring) in a throw-away worktree and runs the quick checks against it: every check must stay silent (rc=0).
 name=$1; shift
 ids=${@:-C01 C02 C03 C04 C05 C06 C07 C08 C09 C10 C11 C12 C13 C14 C15 C16 C17 C18 C19 C20}
-out=$(timeout 3600 /verif/tools/try_mutation.sh /verif/seeded-harmless/$name/patch.diff $ids 2>&1)
+out=$(timeout 3600 /verif/tools/try_mutation.sh ${HARMLESS_DIR:-/verif/seeded-harmless}/$name/patch.diff $ids 2>&1)
 echo "$name: $(echo "$out" | grep -c 'rc=0') silent, alarms: $(echo "$out" | grep '^==' | grep -v 'rc=0' | awk '{print $3,$4}' | tr '\n' ' ')"
